@@ -33,7 +33,7 @@ ASSUMPTIONS = ['world.testing/log.testing off; locale encoding UTF-8; integers w
                'private registry.Group trees and a scratch file; registry._cache/_lastModified are restored after every load']
 LEVEL_TEXT = ('Coq theorems over an executable Gallina model of src/registry.py (names, unicode_escape codec, repr/string-literal evaluation, value classes, '
               'value lines of close(), the reader open_registry(), the Value tree with _makeChild/_setValue/getSpecific, the loader cache with the register*Value scans of src/conf.py): name split/join round trip and '
-              'save/reload round trips proved for all inputs on decidable domains with refuting witnesses outside them (finding C15.F23 remains; C15.F16, F22, F24, F25 are repaired); the model is tied to '
+              'save/reload round trips proved for all inputs on decidable domains with refuting witnesses outside them (finding C15.F23 remains; C15.F16, F22, F24, F25, F26, F27 are repaired); the model is tied to '
               'the source by a regenerated class inventory + constant tables and by a differential run against the real registry/conf classes on every check.')
 LEVEL_NOTE = ('Trusted: Coq kernel, table extractor, extraction + OCaml driver, the Python harness; CPython primitives listed in trusted_base; '
               'Python code is modelled not verified.')
@@ -234,7 +234,7 @@ def cls_comma_set(inp):
             and any(x != x.strip() for x in inp['value'][1]))
 
 
-CLASSES = {'comma_set_edge_blank': cls_comma_set, 'network_only_not_reinstantiated': lambda inp: cls_net_only(inp)}
+CLASSES = {'comma_set_edge_blank': cls_comma_set}
 
 # witnesses of repaired defects (findings/C15.json "fixed"): run first on every check, nothing attributes them to a finding
 CORPUS_FIXED = [
@@ -249,6 +249,10 @@ CORPUS_FIXED = [
     {'op': 'set', 'cls': 'conf.SocketTimeout', 'cur': None, 'text': '12345678901234'},                                # C15.F25
     {'op': 'names', 'names': ['a\\', 'b']},                                                                          # C15.F26
     {'op': 'names', 'names': ['var', ':n\\', '#c']},                                                                 # C15.F26
+    {'op': 'gens', 'vars': [{'ns': ['reply', 'mores'], 'flavor': 'channel', 'cls': 'registry.Boolean'}],                 # C15.F27
+     'gens': [[['set', 0, ['n', 'neta'], 'False'], ['read', 0, ['n', 'neta']]], [], [['read', 0, ['n', 'neta']]]], 'final_reads': 1},
+    {'op': 'gens', 'vars': [{'ns': ['networks', 'neta', 'saslUser'], 'flavor': 'network', 'cls': 'registry.String'}],    # C15.F27
+     'gens': [[['set', 0, ['n', 'netb'], 'x y'], ['read', 0, ['n', 'netb']]], [], [], [['read', 0, ['n', 'netb']]]], 'final_reads': 1},
     {'op': 'reload', 'cls': 'registry.Json', 'var': 'v', 'value': [0, '"a"'], 'text': '"a"', 'cur': None},              # C15.F16: Json is not quoted
 ]
 
@@ -802,22 +806,6 @@ def check_gens(ctx, inp, mo):
         ctx.fail(inp, fails[0])
 
 
-def cls_net_only(inp):
-    """C15.F27: a network-level specific value (<var>.:net) that no <var>.:net.#chan line re-instantiates"""
-    if inp.get('op') == 'real_gens':
-        return any(c[1] and not c[2] for c in inp['cases'])
-    if inp.get('op') != 'gens':
-        return False
-    for o in inp['gens'][0]:
-        if o[0] == 'set' and o[2][0] == 'n':
-            fl = inp['vars'][o[1]]['flavor']
-            if fl == 'network':
-                return True
-            if not any(p[0] == 'set' and p[1] == o[1] and p[2][0] == 'nc' and p[2][1].lower() == o[2][1].lower() for p in inp['gens'][0]):
-                return True
-    return False
-
-
 GVARS = [(['reply', 'mores'], 'channel', 'registry.Boolean'), (['reply', 'mores', 'maximum'], 'channel', 'registry.PositiveInteger'),
          (['reply', 'whenAddressedBy', 'chars'], 'channel', 'registry.String'), (['reply', 'inPrivate'], 'channel', 'registry.Boolean'),
          (['reply', 'format', 'list', 'maximumItems'], 'channel', 'registry.Integer'), (['plugins', 'Foo', 'bar'], 'channel', 'registry.SpaceSeparatedListOfStrings'),
@@ -1056,6 +1044,10 @@ def _run(ctx):
             do_reload(ctx, inp)
         elif inp['op'] == 'names':
             check_names(ctx, inp['names'], None)
+        elif inp['op'] == 'gens':
+            fails = run_gens(ctx, inp, None)
+            if fails:
+                ctx.fail(inp, fails[0])
         elif inp['op'] == 'set':
             sub = type(ctx)(ctx.pid, ctx.tier, ctx.seed, {'model_ok': False})
             check_class_text(sub, inp['cls'], inp.get('cur'), inp['text'], 'v', None)
@@ -1190,7 +1182,7 @@ def _run(ctx):
     # (6) generations
     gl = list(CORPUS_GENS)
     for i in range(ctx.n(150)):
-        gl.append(ggen(rng, with_net_only=(i % 10 == 0)))
+        gl.append(ggen(rng, with_net_only=(i % 2 == 0)))
     outs = ctx.model([gens_wire(g) for g in gl])
     for g, mo in zip(gl, outs):
         check_gens(ctx, g, mo)
